@@ -32,6 +32,18 @@ for cfg in ("default", "explanations", "checks", "checks_explanations"):
         if k in out and k not in calls:
             calls[k] = sorted({c.callee.name for c in b.calls if c.callee is not None and not b.blocks[c.bb]["cleanup"]})
 json.dump(calls, open("/verif/anchors_calls.json", "w"), indent=0, sort_keys=True)
+# parameter names per function (a renamed parameter gets its reviewed name back: some rules name parameters literally)
+params = {}
+for cfg in ("default", "explanations", "checks", "checks_explanations"):
+    crate = mir.Crate(facts.load(cfg, "slotted_egraphs"), use_anchors=False)
+    for b in crate.bodies.values():
+        if b.kind == "Closure" or not (b.file or "").startswith("src/") or b.auto_derived or not b.name:
+            continue
+        k = "%s::%s" % (b.file, b.name)
+        if k in out and k not in params:
+            params[k] = [b.var_names.get(l) for l in range(1, b.argc + 1)]
+json.dump(params, open("/verif/anchors_params.json", "w"), indent=0, sort_keys=True)
+print(len(params), "parameter lists")
 print(len(calls), "callee lists")
 # fields of the library's own structs / enum variants (name, type): a renamed private field is found again by its type
 adts = {}
